@@ -122,7 +122,7 @@ def routeCfgItem (d : Desc) (r : Routed) : Item :=
     (some "UseIdTable", boolLit d.useIdTable),
     (some "XYAddrOffsetX", num xyOff),
     (some "XYAddrOffsetY", num xyOffY),
-    (some "IdAddrOffset", num 0),
+    (some "IdAddrOffset", num (if d.algo == .ID && !d.useIdTable then d.addrOffsetBits.getD 0 else 0)),
     (some "NumSamRules", num r.sam.length),
     (some "NumRoutes", num (if d.algo == .SRC then r.numEndpoints else 0))])
 
